@@ -10,6 +10,7 @@ RULE = ('cases = pair models (1..3 potentials x labels) x grids with nr a multip
         '{DL_POLY, DLPOLY}, a (cutoff, nr) lattice sweep, and every nr in 3..41 not divisible by 4 (x routes) for the rejection '
         'rule; every case executed; evaluations = table values compared; non-trivial = every accepted table '
         '(curved, pairwise distinct potentials, >= 8 grid points) and every rejection case')
+RULE += "; the same pair space as C01 (objects, numpy / abs() callables, long labels, pre-filled / symlinked OUTPUT_FILE, failed predecessor) plus SI-unit potentials with the caller's derivative step h, magnitudes below 1e-99, and the rejection rule for an empty potential list"
 ASSUMPTIONS = [
     'reference closed forms are the documented formulas (see C01)',
     'DL_POLY TABLE layout as encoded in mc/readers/pair.py: title (80 blanks), (2e15.8,i10), per potential (2a8) then ngrid/4 + ngrid/4 records (4e15.8)',
